@@ -73,6 +73,9 @@ static inline void KB_I(long v) { if (v < 0) { KB_C('-'); KB_U((unsigned long)-v
  * (heap addresses differ from replay to replay): sym() names the words the world knows (its own objects, callbacks, blocks);
  * other pointers into tracked blocks become L<tag>+off / D (freed block); anything else is data and printed as is. */
 typedef int (*mc_symfn)(uintptr_t v);
+extern char __executable_start, _end;
+struct mc_dlinfo { const char *fname; void *fbase; const char *sname; void *saddr; };
+extern int mc_dladdr(const void *, struct mc_dlinfo *) __asm__("dladdr");
 static void KB_X(unsigned long v) { static const char hx[] = "0123456789abcdef"; int i, st = 0; for (i = 60; i >= 0; i -= 4) { int d = (int)((v >> i) & 15); if (d || st || i == 0) { KB_C(hx[d]); st = 1; } } }
 static void KB_MEM(const void *p, size_t n, mc_symfn sym)
 {
@@ -85,6 +88,10 @@ static void KB_MEM(const void *p, size_t n, mc_symfn sym)
         if (sym && sym(v)) continue;
         if ((b = shim_find((const void *)v)) != NULL || (v > 0x10000 && (b = shim_find((const void *)(v - 1))) != NULL)) { KB_C('L'); KB_I(b->tag); KB_C('+'); KB_U((unsigned long)(v - (uintptr_t)b->p)); continue; }
         if (v > 0x10000 && shim_find_dead((const void *)v) != NULL) { KB_C('D'); continue; }
+        /* an address inside the program image or a shared object (a callback the library stored, a static object): position-independent
+         * executables load at a different base in every process, so name it by image offset or two replays of one history would differ */
+        if (v >= (uintptr_t)&__executable_start && v < (uintptr_t)&_end) { KB_C('X'); KB_X(v - (uintptr_t)&__executable_start); continue; }
+        if (v > 0x100000000ul) { struct mc_dlinfo di; if (mc_dladdr((const void *)v, &di) && di.fbase) { KB_C('S'); KB_X(v - (uintptr_t)di.fbase); continue; } }
         KB_X(v);
     }
     for (; i < n; i++) { KB_C(':'); KB_X(((const unsigned char *)p)[i]); }
